@@ -77,6 +77,14 @@ func (hs *heightSub) SetHeight(height uint64) {
 // It can return errElapsedHeight, which means a requested height was already seen
 // and caller should get it elsewhere.
 func (hs *heightSub) Wait(ctx context.Context, height uint64) error {
+	return hs.wait(ctx, height, nil)
+}
+
+// wait is [Wait] with a final check done once the subscription is registered.
+// A header stored above a gap does not advance the height, it only notifies the waiters there are at
+// that moment: if it lands between the caller's lookup and the registration, the notification is missed
+// and nothing else would wake the caller up. The stored func reports whether the header can be read by now.
+func (hs *heightSub) wait(ctx context.Context, height uint64, stored func() bool) error {
 	if hs.Height() >= height {
 		return errElapsedHeight
 	}
@@ -99,6 +107,16 @@ func (hs *heightSub) Wait(ctx context.Context, height uint64) error {
 	}
 	sac.count++
 	hs.heightSubsLk.Unlock()
+
+	if stored != nil && stored() {
+		// no need to keep the request, the header is there
+		hs.heightSubsLk.Lock()
+		if curr, ok := hs.heightSubs[height]; ok && curr == sac {
+			hs.notify(height, false)
+		}
+		hs.heightSubsLk.Unlock()
+		return errElapsedHeight
+	}
 
 	select {
 	case <-sac.signal:
